@@ -205,6 +205,18 @@ PROPS["C16"] = {
     "level_note": LEVEL_NOTE_NOISE,
 }
 
+PROPS["C15"] = {
+    "pkgs": ["mailbox"],
+    "level": "exploration",
+    "quick_budget": 70, "thorough_budget": 1500,
+    "rule": "After a real handshake, NoiseGrpcConn (over a ProxyConn stub) or NoiseConn (over a stream that may fragment reads) carries 1..10 writes per direction with sizes 0, 1, <100, around 32 KiB, 65535, arbitrary up to 65535 and (TCP variant) up to 300 KiB, uni- or bidirectional; the reader task draws every buffer size from {1, 1..16, 1..1024, 32 KiB-2..+2, 1..70000, 100 KiB, 5, 4096}; writer and reader are separate tasks. Enumerated: writes of 65535/65536/65537/200000 bytes on both variants followed by a small write. Oracles: 0 <= n <= len(buf) for every Read; bytes read are a prefix of, and finally equal to, bytes written; no io.EOF inside an intact stream; a Write returns len(p) or an error." + SIG_RULE,
+    "assumptions": ["the plain connKit (ClientConn/ServerConn) variant is exercised by the C05 end-to-end scenarios, which apply the same n <= len(buf) and byte-equality oracles"],
+    "components": NOISE_COMPONENTS,
+    "expected_probes": ["c15.reads", "c15.oversize-rejected", "c15.oversize-chunked-or-fits"],
+    "level_text": EXPL_TEXT,
+    "level_note": LEVEL_NOTE_NOISE,
+}
+
 # Properties that are pure functions of their input: no schedule, clock, fault
 # or interleaving enters them, so deterministic simulation has nothing to decide.
 NOT_APPLICABLE = {
